@@ -77,11 +77,16 @@ Inductive ekind :=
 | EReserved                                          (* field.value *)
 | EFloat                                             (* encode_float(field.value) *)
 | ELookup (tbl : str)                                (* raw_value if not None else lookup_encode_<tbl>(value) *)
-| EDate                                              (* raw_value if not None else encode_date(value) *)
-| ETime (res : num) (len : Z).                       (* int(raw_value / res) if raw_value is not None else encode_time(value, len) *)
+| EDate (len : Z) (signed : bool) (res : num)
+     (* days = raw_value if not None else (None if value is None else encode_date(value));
+        encode_number(days, len, signed, res) *)
+| ETime (len : Z) (signed : bool) (res : num).
+     (* seconds = raw_value if not None else (None if value is None else encode_time(value, len));
+        encode_number(seconds, len, signed, res) *)
 Inductive estep :=
 | EField (id : str) (k : ekind) (mask shift : Z)     (* get_field_by_id(id) ... data_raw |= (v & mask) << shift *)
-| ERaise.                                            (* raise Exception(...) — not encodable *)
+| ERaise                                             (* raise Exception(...) — not encodable (field without position) *)
+| ERaiseAfter (id : str).                            (* get_field_by_id(id) (may raise "missing"), then raise "not supported" *)
 Record edef := mkE { e_steps : list estep; e_length : option Z }.   (* to_bytes(n) or minimal length *)
 
 (* ---------------- decidable equalities used by the table obligations ---------------- *)
